@@ -87,13 +87,13 @@ def _check_permute_exact(ctx, X, A, p, kind):
     ctx.check(ref.same_exact(ref.den(R2), expect), "permute-list-form")
 
 
-@cell("C07/permute/tensor", strategy=_perm_dense, quick=400, thorough=8000)
+@cell("C07/permute/tensor", strategy=_perm_dense, quick=1500, thorough=20000)
 def permute_tensor(ctx, case):
     X = gen.build_tensor(case)
     _check_permute_exact(ctx, X, gen.arr_F(case["shape"], case["data"]), case["perm"], "tensor")
 
 
-@cell("C07/permute/sptensor", strategy=_perm_sparse, quick=400, thorough=8000)
+@cell("C07/permute/sptensor", strategy=_perm_sparse, quick=1500, thorough=20000)
 def permute_sptensor(ctx, case):
     X = gen.build_sptensor(case)
     ctx.label("pattern-" + case["pattern"], "stored-" + case["order"])
@@ -133,7 +133,7 @@ def _perm_kt(draw, tier):
     return c
 
 
-@cell("C07/permute/ktensor", strategy=_perm_kt, quick=300, thorough=6000)
+@cell("C07/permute/ktensor", strategy=_perm_kt, quick=1000, thorough=12000)
 def permute_ktensor(ctx, case):
     K = gen.build_ktensor(case)
     p = case["perm"]
@@ -165,7 +165,7 @@ def _perm_tt(draw, tier):
     return c
 
 
-@cell("C07/permute/ttensor", strategy=_perm_tt, quick=300, thorough=6000)
+@cell("C07/permute/ttensor", strategy=_perm_tt, quick=1000, thorough=12000)
 def permute_ttensor(ctx, case):
     T = gen.build_ttensor(case)
     p = case["perm"]
@@ -237,7 +237,7 @@ def _nt_reshape(old, new):
     return tuple(old) != tuple(new) and len(set(old)) >= 2 and ref.prod(old) > 1
 
 
-@cell("C07/reshape/tensor", strategy=_reshape_dense, quick=400, thorough=8000)
+@cell("C07/reshape/tensor", strategy=_reshape_dense, quick=1500, thorough=20000)
 def reshape_tensor(ctx, case):
     X = gen.build_tensor(case)
     A = gen.arr_F(case["shape"], case["data"])
@@ -272,7 +272,7 @@ def _reshape_sparse(draw, tier):
     return c
 
 
-@cell("C07/reshape/sptensor", strategy=_reshape_sparse, quick=500, thorough=10000)
+@cell("C07/reshape/sptensor", strategy=_reshape_sparse, quick=1500, thorough=20000)
 def reshape_sptensor(ctx, case):
     X = gen.build_sptensor(case)
     A = gen.dense_of_sparse_case(case)
@@ -382,7 +382,7 @@ def _squeeze_case(draw, tier):
     return base
 
 
-@cell("C07/squeeze", strategy=_squeeze_case, quick=500, thorough=10000)
+@cell("C07/squeeze", strategy=_squeeze_case, quick=1500, thorough=20000)
 def squeeze(ctx, case):
     sparse = case["holder"] == "sptensor"
     if sparse:
